@@ -20,6 +20,11 @@ def check(ctx):
     vectors.inactive_value_contract(ctx)
     vectors.eager_returns_stored_vector(ctx)
     decode.closest_combination_distance(ctx)
+    # an active choice is reported active with the option that is wired: choices the graph takes by itself are recorded
+    # (fast encoder), and every selection scenario is decoded with the existence pattern it belongs to
+    from . import c07 as _c07, c11 as _c11
+    _c07.fast_records_auto_taken(ctx)
+    _c11.existence_patterns(ctx)
     # two different vectors never denote one architecture: the instance caches are keyed completely
     fns, _ = decode.decode_slice(ctx)
     ps = persist.Persist(ctx, [ctx.fn(f'{GP}.get_graph')], fns)
